@@ -12,7 +12,7 @@ func init() {
 	Scenarios["C10"] = scenC10
 }
 
-var c10Phases = []string{"during-init", "runtime-working", "after-response", "during-timeout-reset", "during-failure-reset", "lock-window", "reset-tail"}
+var c10Phases = []string{"during-init", "runtime-working", "after-response", "during-timeout-reset", "during-failure-reset", "lock-window", "reset-tail", "double-reset", "during-upload"}
 
 // lock sites on the tail of rapidcore.Server.Reset, after the sandbox was reset: state clearing and the hand-back
 var c10ResetTailSites = []string{"Server).Release<go.amzn.com/lambda/rapidcore.(*Server).Reset", "Server).Release<go.amzn.com/lambda/rapidcore.(*Server).Clear", "endReset", "setRapidPhase<go.amzn.com/lambda/rapidcore.(*Server).Reset", "setRuntimeState<go.amzn.com/lambda/rapidcore.(*Server).Reset", "Server).Clear"}
@@ -34,11 +34,47 @@ func scenC10(r *Run, job *Job) {
 		holdSite = c10HoldSites[t.Draw(len(c10HoldSites))]
 		r.AddHold(holdSite, 1+t.Draw(3), 2+t.Draw(3))
 	}
+	var lateExit time.Duration
+	if c10Phases[phase] == "double-reset" {
+		// the victim's runtime exits shortly before the expiry and an extension ignores SHUTDOWN: the failure reset is
+		// still running when the timeout starts its own
+		victim = 1
+		lateExit = time.Duration(timeoutSec)*time.Second - []time.Duration{1500 * time.Millisecond, 500 * time.Millisecond, 100 * time.Millisecond}[t.Draw(3)]
+		has := false
+		for _, x := range exts {
+			if !x.Internal {
+				has = true
+			}
+		}
+		if !has {
+			exts = append(exts, ExtCfg{Name: "e1", Subs: []string{"INVOKE", "SHUTDOWN"}})
+		}
+		nExtra = 2
+	}
+	if c10Phases[phase] == "during-upload" {
+		victim = 1
+	}
 	resetTailMode := ""
 	if c10Phases[phase] == "reset-tail" {
 		holdSite = c10ResetTailSites[t.Draw(len(c10ResetTailSites))]
-		r.AddHold(holdSite, 1+t.Draw(2), 2+t.Draw(3))
-		resetTailMode = []string{"stall", "exit"}[t.Draw(2)]
+		r.AddHold(holdSite, 1+t.Draw(3), 2+t.Draw(3))
+		resetTailMode = []string{"stall", "exit", "late-exit"}[t.Draw(3)]
+		if resetTailMode == "late-exit" {
+			// two resets overlap (the runtime exits shortly before the expiry, an extension ignores SHUTDOWN); the hold
+			// may hit either of them
+			victim = 1
+			lateExit = time.Duration(timeoutSec)*time.Second - []time.Duration{1500 * time.Millisecond, 500 * time.Millisecond, 100 * time.Millisecond}[t.Draw(3)]
+			has := false
+			for _, x := range exts {
+				if !x.Internal {
+					has = true
+				}
+			}
+			if !has {
+				exts = append(exts, ExtCfg{Name: "e1", Subs: []string{"INVOKE", "SHUTDOWN"}})
+			}
+			resetTailMode = ""
+		}
 	}
 	if t.Chance(1, 3) {
 		r.ReorderNum, r.ReorderDen = 1, 4
@@ -56,9 +92,18 @@ func scenC10(r *Run, job *Job) {
 				}
 				return nil
 			}
+			if lateExit > 0 && w.GenOrdinal(p.Gen) == 1 {
+				b.Script, b.ThenHealthy = []Op{{Kind: "next"}, {Kind: "until", D: lateExit}, {Kind: "exit", N: 1}}, false
+			}
+			if c10Phases[phase] == "during-upload" && w.GenOrdinal(p.Gen) == 1 {
+				// the answer to the victim is uploaded in two halves, 300 ms apart
+				b.Script = []Op{{Kind: "next"}, {Kind: "stalled-upload", Arg: "response", D: 300 * time.Millisecond}}
+			}
 			if c10Phases[phase] == "runtime-working" {
 				b.Stalls = map[int]time.Duration{2*victim - 1: 300 * time.Millisecond} // before the response to the victim
 			}
+		} else if lateExit > 0 {
+			b.OnShutdown = "ignore"
 		} else if c10Phases[phase] == "after-response" {
 			b.Stalls = map[int]time.Duration{1 + victim: 300 * time.Millisecond} // the extension comes back late
 		}
@@ -88,6 +133,22 @@ func scenC10(r *Run, job *Job) {
 		case "during-timeout-reset", "during-failure-reset":
 			for _, q := range w.Sup.Requests() {
 				if (q.Kind == "kill" || q.Kind == "terminate") && q.Step >= v.ArrivalStep {
+					return true
+				}
+			}
+			return false
+		case "double-reset":
+			// the first extra caller arrives when the teardown starts, the second one 1.2 s later
+			var first time.Duration = -1
+			for _, q := range w.Sup.Requests() {
+				if (q.Kind == "kill" || q.Kind == "terminate") && q.Step >= v.ArrivalStep && (first < 0 || q.At < first) {
+					first = q.At
+				}
+			}
+			return first >= 0 && r.Now() >= first+time.Duration(made)*1200*time.Millisecond
+		case "during-upload":
+			for _, a := range e.Actors() {
+				if a.IsRT && a.Cur != nil && a.Cur.Tag == "rt-stalled-upload" && a.Cur.Pending() {
 					return true
 				}
 			}
@@ -194,6 +255,12 @@ func scenC10(r *Run, job *Job) {
 		switch {
 		case inv.N == victim && mode == "stall":
 			r.Check(st == 200 && bytes.Equal(body, timeoutBody), "C10.effect-on-victim", "victim %d (runtime stalls): %d %s", inv.N, st, summarize(body))
+		case inv.N == victim && lateExit > 0:
+			eb, ok := ParseErr(body)
+			r.Check(st == 200 && bytes.Equal(body, timeoutBody) || st >= 500 && ok && eb.ErrorType == "Runtime.ExitError", "C10.effect-on-victim", "victim %d (runtime exits shortly before the expiry): %d %s", inv.N, st, summarize(body))
+		case inv.N == victim && c10Phases[phase] == "during-upload":
+			want := []byte("stalled-upload-body-0123456789-0123456789")
+			r.Check(st == 200 && bytes.Equal(body, want), "C10.effect-on-victim", "victim %d (answer uploaded in two halves): %d %s", inv.N, st, summarize(body))
 		case inv.N == victim && mode == "exit":
 			eb, ok := ParseErr(body)
 			r.Check(st >= 500 && ok && eb.ErrorType == "Runtime.ExitError", "C10.effect-on-victim", "victim %d (runtime exits): %d %s", inv.N, st, summarize(body))
